@@ -22,7 +22,7 @@ REFGROUP = {"abs32": "abs32", "abs32s": "abs32", "abs32z": "abs32", "pc32": "pcr
 
 def case_name(c):
     n = f"{c['sym']}-{c['ref']}-{c['out']}-w{int(c.get('secw', True))}x{int(c.get('relax', True))}r{int(c.get('relr', False))}"
-    for k in ("pad", "align", "shift"):
+    for k in ("pad", "align", "shift", "sibling", "dbg"):
         if c.get(k):
             n += f"-{k}{int(c[k])}"
     if c.get("extra"):
